@@ -605,7 +605,15 @@ func (sc *SCtx) addr(e Expr) (*Addr, types.Type, error) {
 	switch x := e.(type) {
 	case *ESel:
 		var base Val
-		if a0, _, err0 := sc.addr(x.X); err0 == nil {
+		a0, t0, err0 := sc.addr(x.X)
+		_, basePtr := func() (types.Type, bool) {
+			if t0 == nil {
+				return nil, false
+			}
+			_, isP := t0.Underlying().(*types.Pointer)
+			return t0, isP
+		}()
+		if err0 == nil && !basePtr {
 			// the base is itself a location (nested struct field): stay symbolic
 			base = Val{K: VAddr, A: a0}
 		} else {
